@@ -112,8 +112,18 @@ class recording:
         return False
 
 
+class Poisoned(Exception):
+    """an exception was raised inside the C++ engine: it keeps a stale exception for ever (later evaluations in this
+    process crash or report it again), so the in-process streams stop at the first such case, which is reported"""
+
+
+def engine_raised(msg):
+    return bool(msg) and 'Biogeme exception' in str(msg)
+
+
 def real_eval(case):
     """drive the real code; returns a JSON-able observation"""
+    core.progress(case)
     objs = G.build(case)
     db = G.database(case)
     obs = {'roots': []}
@@ -140,6 +150,16 @@ def real_eval(case):
             o['values2'] = [float(v) for v in np.asarray(out.functions).reshape(-1)]
         except Exception as e:  # noqa: BLE001
             o['error2'] = f'{core.exc_kind(e)}: {e}'[:300]
+        # option combinations of the same entry point: the sum over the rows, and no database at all
+        try:
+            o['sum'] = float(root.get_value_c(database=db, betas=dict(case.get('dict', {})), aggregation=True, prepare_ids=True))
+        except Exception as e:  # noqa: BLE001
+            o['error_sum'] = f'{core.exc_kind(e)}: {e}'[:300]
+        if not any(case['nodes'][j]['k'] == 'var' for j in _reach(case, r)):
+            try:
+                o['nodb'] = float(root.get_value_c(betas=dict(case.get('dict', {})), prepare_ids=True))
+            except Exception as e:  # noqa: BLE001
+                o['error_nodb'] = f'{core.exc_kind(e)}: {e}'[:300]
         # id table as the library reports it
         try:
             root.prepare(db, 0)
@@ -158,6 +178,7 @@ def real_eval(case):
 
 
 def check_case(ctx, res, case, label='gen', obs=None):
+    in_process = obs is None
     obs = obs if obs is not None else real_eval(case)
     res.count({'nodes': case['nodes'], 'roots': case['roots'], 'rows': len(case['rows'])}, nontrivial=G.nontrivial(case))
     for k in G.kinds_in(case):
@@ -173,6 +194,8 @@ def check_case(ctx, res, case, label='gen', obs=None):
         where = known_where(case)
         if 'error' in o or 'values' not in o:
             res.violate(f'engine evaluation of a valid formula fails: {o.get("error")}', small, o.get('error'), 'a number', where=where)
+            if in_process and engine_raised(o.get('error')):
+                raise Poisoned()
             continue
         # --- property oracle on the real outputs
         expected = []
@@ -189,6 +212,16 @@ def check_case(ctx, res, case, label='gen', obs=None):
                 break
         if o.get('values2') != o['values']:
             res.violate('get_value_c and get_value_and_derivatives disagree', small, o.get('values2', o.get('error2')), o['values'], where=where)
+        if all(e is not None for e in expected):
+            tot = math.fsum(expected)
+            if 'sum' not in o or not core.close(o['sum'], tot, rel=TOL, abs_=TOL * math.fsum(abs(e) for e in expected)):
+                res.violate('get_value_c(aggregation=True) differs from the sum of the mathematical values over the rows', small,
+                            o.get('sum', o.get('error_sum')), tot, where=where)
+        if ('nodb' in o or 'error_nodb' in o) and expected and expected[0] is not None:
+            res.tally('no_database')
+            if 'nodb' not in o or not core.close(o['nodb'], expected[0], rel=TOL):
+                res.violate('evaluation without a database (formula without data variables) differs from the mathematical value', small,
+                            o.get('nodb', o.get('error_nodb')), expected[0], where=where)
         if 'py' in o:
             try:
                 exp_py = G.oracle(case, r, G.beta_values(case, use_dict=False), {}, strict=True)
@@ -373,6 +406,669 @@ def _strip(l):
             'v': f2b(l['v']) if l['k'] in ('num', 'powConst') else 0, 'keys': l['keys'], 'members': sorted(f2b(m) for m in l['members'])}
 
 
+# ----- widened input shapes (transformations of a generated case, re-validated against the oracle) ---
+
+LEAF = ('num', 'beta', 'var')
+PY_KINDS = G.BIN + [u for u in G.UN if u != 'normalCdf'] + ['powConst', 'elem', 'multSum', 'condSum', 'logLogit']
+
+
+def _f32(v):
+    """exactly representable in single precision (the engine reads BelongsTo members as C float: F-E4)"""
+    return math.isfinite(v) and float(np.float32(v)) == float(v)
+
+
+def _rewrite(case, visit):
+    """rebuild the node list; `visit(k, node, emit, new)` may emit new nodes before the node and re-point its children"""
+    new, ren = [], {}
+
+    def emit(n):
+        new.append(n)
+        return len(new) - 1
+
+    for k, n in enumerate(case['nodes']):
+        m = dict(n)
+        if 'c' in m:
+            m['c'] = [ren[c] for c in m['c']]
+        visit(k, m, emit, new)
+        ren[k] = emit(m)
+    out = dict(case)
+    out['nodes'] = new
+    out['roots'] = [ren[r] for r in case['roots']]
+    return G.prune(out)
+
+
+def regular(case, nodes=None, betas=None):
+    """inside the regular domain of the property on every row (independent oracle)"""
+    bv = betas if betas is not None else G.beta_values(case)
+    try:
+        for row in G.rows_of(case):
+            for r in (nodes if nodes is not None else case['roots']):
+                G.oracle(case, r, bv, row)
+        return True
+    except (G.Reject, KeyError, ValueError, OverflowError, ZeroDivisionError):
+        return False
+
+
+def widen_truth(rng, case):
+    """"true" is any non-zero number: conditions of ConditionalSum and availabilities of the logit become negative
+    numbers, numbers other than one, differences of parameters / variables, bare parameters"""
+
+    def visit(k, m, emit, new):
+        if m['k'] == 'condSum':
+            slots = list(range(0, len(m['c']), 2))
+        elif m['k'] == 'logLogit' and not m.get('full'):
+            ma = len(m['keys'])
+            slots = list(range(1 + ma, 1 + 2 * ma))
+        else:
+            return
+        # (constants are not reused: the unit availabilities of a full-choice-set logit are nodes of the abstract case only)
+        leaves = [i for i, x in enumerate(new) if x['k'] in ('beta', 'var')]
+        for sl in slots:
+            u = rng.random()
+            c = m['c'][sl]
+            if u < 0.35:
+                f = emit({'k': 'num', 'v': rng.choice([-1.0, -2.5, -0.25, 3.0, -16.0, 0.5]), 'raw': False})
+                m['c'][sl] = emit({'k': 'times', 'c': [c, f] if rng.random() < 0.5 else [f, c]})
+            elif u < 0.5:
+                m['c'][sl] = emit({'k': 'neg', 'c': [c]})
+            elif u < 0.7 and m['k'] == 'condSum' and len(leaves) >= 2:
+                a, b = rng.sample(leaves, 2)
+                m['c'][sl] = emit({'k': 'minus', 'c': [a, b]})
+            elif u < 0.8 and m['k'] == 'condSum' and leaves:
+                a = rng.choice(leaves)
+                if a not in m['c'][0::2]:      # one condition node per term (engine finding F-E1)
+                    m['c'][sl] = a
+
+    out = _rewrite(case, visit)
+    return out if regular(out) else case
+
+
+def widen_members(rng, case):
+    """set membership on numbers that are not integers: the argument becomes (often) a parameter or a data column
+    with dyadic values, the members are drawn from the values the argument really takes and from their neighbours
+    (truncation, floor, ceiling, rounding, halves, opposite)"""
+
+    def visit(k, m, emit, new):
+        if m['k'] == 'belongsTo' and rng.random() < 0.6:
+            leaves = [i for i, x in enumerate(new) if x['k'] in ('beta', 'var')]
+            if leaves:
+                m['c'] = [rng.choice(leaves)]
+
+    out = _rewrite(case, visit)
+    out['nodes'] = [dict(n) for n in out['nodes']]
+    bv = G.beta_values(out)
+    for n in out['nodes']:
+        if n['k'] != 'belongsTo':
+            continue
+        vals = []
+        for row in G.rows_of(out):
+            try:
+                vals.append(G.oracle_node(out, n['c'][0], bv, row, {}, strict=False))
+            except Exception:  # noqa: BLE001
+                pass
+        cand = set(float(x) for x in n['members']) | {0.5, -1.5, 2.25}
+        hits = set()
+        for v in vals:
+            if not math.isfinite(v) or abs(v) > 1e6:
+                continue
+            if _f32(v):
+                hits.add(v + 0.0)
+            for w in (math.trunc(v), math.floor(v), math.ceil(v), round(v), v + 0.5, v - 0.25, -v, 2 * v, v / 2):
+                w = float(w) + 0.0
+                if _f32(w):
+                    cand.add(w)
+        chosen = set(rng.sample(sorted(cand), min(len(cand), rng.randint(0, 3))))
+        if hits:
+            chosen |= set(rng.sample(sorted(hits), min(len(hits), rng.randint(1, 2))))
+        if not chosen:
+            chosen = {0.5}
+        n['members'] = sorted(chosen)
+    return out if regular(out) else case
+
+
+ARITH = ('plus', 'minus', 'times', 'multSum', 'min', 'max', 'neg', 'sin', 'cos')
+
+
+def widen_literals(rng, case):
+    """constants that need all their digits: low-order bits, decimal fractions, small and large magnitudes (only where
+    the constant is an operand of plain arithmetic, so that keys, exact zeros and units keep their role)"""
+    parents = {}
+    for n in case['nodes']:
+        for c in n.get('c', []):
+            parents.setdefault(c, []).append(n['k'])
+    out = dict(case)
+    out['nodes'] = [dict(n) for n in case['nodes']]
+    changed = False
+    for i, n in enumerate(out['nodes']):
+        if n['k'] != 'num' or not parents.get(i) or any(k not in ARITH for k in parents[i]) or rng.random() < 0.5:
+            continue
+        v = float(n['v'])
+        n['v'] = rng.choice([v * (1 + 2.0 ** -20), v * (1 + 2.0 ** -40), v + 1.0 / 3.0, v * 1.1, 0.1, 1e-05, -2.5e-07, 12345.678, v + 1e-09])
+        changed = True
+    return out if changed and regular(out) else case
+
+
+def widen(rng, case):
+    if rng.random() < 0.3:
+        case = widen_literals(rng, case)
+    if any(n['k'] == 'belongsTo' for n in case['nodes']) and rng.random() < 0.8:
+        case = widen_members(rng, case)
+    if any(n['k'] in ('condSum', 'logLogit') for n in case['nodes']) and rng.random() < 0.7:
+        case = widen_truth(rng, case)
+    return case
+
+
+def devar(rng, case):
+    """the same formula without data: every column becomes a parameter (free or fixed) or a constant holding the value
+    of the first row - the shape the pure-Python evaluator accepts"""
+    row = G.rows_of(case)[0]
+
+    def visit(k, m, emit, new):
+        if m['k'] == 'var':
+            v = float(row[m['name']])
+            if rng.random() < 0.3:
+                m.clear()
+                m.update({'k': 'num', 'v': v, 'raw': False})
+            else:
+                name = 'v_' + m['name']
+                m.clear()
+                m.update({'k': 'beta', 'name': name, 'v': v, 'fixed': rng.random() < 0.5})
+
+    out = _rewrite(case, visit)
+    out['rows'] = [case['rows'][0]]
+    return out
+
+
+def gen_py_case(rng):
+    """a formula without data variables over the operators get_value() implements, with general truth values"""
+    for _ in range(50):
+        case = G.gen_case(rng, n_ops=rng.randint(1, 7), kinds=PY_KINDS, n_rows=1)
+        if rng.random() < 0.8:
+            case = widen_truth(rng, case)
+        out = devar(rng, case)
+        # get_value() reads the starting values: the formula must be regular there too
+        if regular(out) and regular(out, betas=G.beta_values(out, use_dict=False)):
+            return out
+    raise RuntimeError('generator could not produce a variable-free regular case')
+
+
+def focus_stream(ctx, res, rng, n):
+    """operators whose meaning depends on *which* numbers are members / count as true, at the root and nested"""
+    filler = ['plus', 'times', 'minus', 'neg', 'max']
+    for kind in ('belongsTo', 'condSum', 'logLogit', 'and', 'or', 'elem'):
+        for i in range(n):
+            case = G.gen_case(rng, n_ops=rng.randint(1, 5), kinds=[kind] * 3 + filler, n_rows=rng.randint(2, 4),
+                              force_kind=kind if i % 2 == 0 else None)
+            case = widen(rng, case)
+            res.tally('focus:' + kind)
+            check_case(ctx, res, case, 'focus')
+            if i % 3 == 0:
+                sharing_check(ctx, res, case)
+
+
+def py_stream(ctx, res, rng, n):
+    """clause (b) on formulas the pure-Python evaluator accepts"""
+    for i in range(n):
+        case = gen_py_case(rng)
+        res.tally('py_stream')
+        obs = check_case(ctx, res, case, 'py')
+        if 'py' in obs['roots'][0]:
+            res.tally('py_stream:accepted')
+        if i % 4 == 0:
+            sharing_check(ctx, res, case)
+
+
+# ----- sequences of operations on the numbering (persistent id manager, evaluation of a part alone, evaluation again) ---
+
+SEQ_WHERE = 'expression evaluation in a persistent numbering (IdManager / create_function / BIOGEME)'
+
+
+def _reach(case, k, acc=None):
+    acc = set() if acc is None else acc
+    if k in acc:
+        return acc
+    acc.add(k)
+    for c in case['nodes'][k].get('c', []):
+        _reach(case, c, acc)
+    return acc
+
+
+def _rand_dict(rng, case):
+    return {n['name']: G._dy(rng, -1.5, 1.5) for n in case['nodes'] if n['k'] == 'beta' and rng.random() < 0.6}
+
+
+def _pick_dict(rng, case, node, full=False):
+    """a dictionary of parameter values with which `node` is regular on every row"""
+    for _ in range(20):
+        d = _rand_dict(rng, case)
+        if full:
+            for n in case['nodes']:
+                if n['k'] == 'beta' and not n.get('fixed') and n['name'] not in d:
+                    d[n['name']] = G._dy(rng, -1.5, 1.5)
+        if regular(case, [node] if not isinstance(node, list) else node, betas=_valuation(case, d)):
+            return d
+    return None
+
+
+def _valuation(case, d):
+    bv = G.beta_values(case, use_dict=False)
+    for name, v in d.items():
+        if name in bv and not G._is_fixed(case, name):
+            bv[name] = float(v)
+    return bv
+
+
+def gen_seq(rng):
+    """(case with the formulas as roots, plan): number several formulas side by side, evaluate parts alone with
+    prepare_ids=True, evaluate the formulas again in their own context.  In a *foreign* plan one more formula, built on
+    the same parameter / variable objects but not numbered with the others, is evaluated alone in between: whether the
+    numbered formulas can still be evaluated is then predicted by the model only; a number that comes back must
+    still be the mathematical value."""
+    for _ in range(80):
+        case = G.gen_case(rng, n_ops=rng.randint(3, 8), n_rows=rng.randint(1, 3))
+        if rng.random() < 0.5:
+            case = widen(rng, case)
+        ops = [i for i, n in enumerate(case['nodes']) if n['k'] not in LEAF]
+        mode = rng.choice(['idm', 'idm', 'function', 'biogeme'])
+        # (the library evaluates the availabilities of a logit alone while it audits the formula: in a state that is
+        # not uniform this re-numbers them, which the model of the state does not follow)
+        foreign = rng.random() < 0.3 and not any(n['k'] == 'logLogit' for n in case['nodes']) and len(ops) >= 2
+        nroots = 1 if mode == 'function' else rng.randint(1, 3)
+        case = G.prune(dict(case, roots=ops[-(nroots + (1 if foreign else 0)):], dict={}))
+        formulas = list(case['roots'])
+        if foreign:
+            if len(formulas) < 2:
+                continue
+            out_i = rng.randrange(len(formulas))
+            stranger = formulas[out_i]
+            roots = [r for i, r in enumerate(formulas) if i != out_i]
+        else:
+            stranger, roots = None, formulas
+        nodes = case['nodes']
+        below = set()
+        for r in roots:
+            _reach(case, r, below)
+        # parts: operator nodes and bare parameters below the numbered formulas; parts with parameters matter most
+        parts = [k for k in sorted(below) if nodes[k]['k'] not in ('num', 'var')]
+        withb = [k for k in parts if any(nodes[j]['k'] == 'beta' for j in _reach(case, k))]
+        if not withb:
+            continue
+        steps = [{'s': 'function', 'node': roots[0]}] if mode == 'function' else [{'s': 'persist', 'roots': roots}]
+        ok = True
+
+        def again():
+            if mode == 'biogeme':
+                d2 = _pick_dict(rng, case, list(roots), full=True)
+                if d2 is None:
+                    return False
+                steps.append({'s': 'ctx', 'nodes': roots, 'dict': d2})
+                return True
+            for r in roots:
+                d2 = _pick_dict(rng, case, r, full=(mode == 'function'))
+                if d2 is None:
+                    return False
+                steps.append({'s': 'ctx', 'node': r, 'dict': d2, 'entry': rng.choice(['value_c', 'derivatives'])})
+            return True
+
+        if foreign:
+            outside = [k for k in sorted(_reach(case, stranger) - (below if rng.random() < 0.5 else set())) if nodes[k]['k'] not in ('num', 'var')]
+            k = rng.choice(outside) if outside else stranger
+            d = _pick_dict(rng, case, k)
+            if d is None:
+                continue
+            steps.append({'s': 'alone', 'node': k, 'dict': d, 'entry': rng.choice(['value_c', 'derivatives'])})
+            if not again():
+                continue
+        for _ in range(rng.randint(1, 3)):
+            k = rng.choice(withb if rng.random() < 0.85 else parts)
+            d = _pick_dict(rng, case, k)
+            if d is None:
+                continue
+            steps.append({'s': 'alone', 'node': k, 'dict': d, 'entry': rng.choice(['value_c', 'derivatives'])})
+            if not again():
+                ok = False
+                break
+        if not ok or not any(st['s'] == 'alone' for st in steps):
+            continue
+        if mode == 'idm' and rng.random() < 0.3:
+            steps.append({'s': 'reset', 'node': roots[0]})
+            steps.append({'s': 'ctx', 'node': roots[0], 'dict': {}, 'entry': 'value_c', 'expect_refused': True})
+        return {'nodes': nodes, 'roots': roots, 'columns': case['columns'], 'rows': case['rows'], 'dict': {}, 'mode': mode,
+                'foreign': foreign, 'steps': steps}
+    raise RuntimeError('generator could not produce a sequence')
+
+
+def _table_of(e):
+    idm = e.id_manager
+    if idm is None:
+        return None
+    return {'free': list(idm.free_betas.names), 'fixed': list(idm.fixed_betas.names), 'cols': list(idm.variables.names)}
+
+
+def _sig_text(e):
+    try:
+        return [x.decode() if isinstance(x, bytes) else x for x in e.get_signature()]
+    except Exception as ex:  # noqa: BLE001
+        return {'error': core.exc_kind(ex)}
+
+
+def seq_real(seq):
+    """drive the real code through the plan; one observation per step"""
+    import biogeme.biogeme as bio
+    from biogeme.expressions import IdManager
+
+    core.progress(_seq_small(seq))
+    objs = G.build(seq)
+    db = G.database(seq)
+    mode, roots = seq['mode'], seq['roots']
+    B = fn = None
+    out = []
+
+    def evaluate(e, entry, betas, prepare):
+        if entry == 'derivatives':
+            r = e.get_value_and_derivatives(betas=dict(betas), database=db, gradient=False, hessian=False, bhhh=False,
+                                            aggregation=False, prepare_ids=prepare)
+            return [float(v) for v in np.asarray(r.functions).reshape(-1)]
+        return [float(v) for v in np.asarray(e.get_value_c(database=db, betas=dict(betas), prepare_ids=prepare)).reshape(-1)]
+
+    def rec_of(log, o):
+        if log:
+            rec = log[-1]
+            o['signature'] = [x.decode() if isinstance(x, bytes) else x for x in rec.get('signature', [])]
+            o['free'], o['fixed'], o['columns'] = rec.get('free'), rec.get('fixed'), rec.get('columns')
+
+    for st in seq['steps']:
+        o = {}
+        try:
+            if st['s'] == 'persist':
+                if mode == 'biogeme':
+                    B = bio.BIOGEME(db, {f'f{i}': objs[r] for i, r in enumerate(roots)})
+                    B.modelName = 'seq'
+                else:
+                    idm = IdManager([objs[r] for r in roots], db, 0)
+                    for r in roots:
+                        objs[r].set_id_manager(idm)
+                o['table'] = _table_of(objs[roots[0]])
+            elif st['s'] == 'function':
+                fn = objs[st['node']].create_function(database=db, gradient=False, hessian=False, bhhh=False)
+                o['table'] = _table_of(objs[st['node']])
+            elif st['s'] == 'alone':
+                with recording() as log:
+                    try:
+                        o['values'] = evaluate(objs[st['node']], st['entry'], st['dict'], True)
+                    finally:
+                        rec_of(log, o)
+            elif st['s'] == 'reset':
+                objs[st['node']].set_id_manager(None)
+            elif st['s'] == 'ctx':
+                if mode == 'biogeme':
+                    sim = B.simulate(dict(st['dict']))
+                    o['sim'] = [[float(v) for v in sim[f'f{i}'].to_numpy()] for i in range(len(roots))]
+                elif mode == 'function':
+                    e = objs[st['node']]
+                    names = list(e.id_manager.free_betas.names)
+                    o['names'] = names
+                    bv = _valuation(seq, st['dict'])
+                    with recording() as log:
+                        try:
+                            r = fn(np.array([bv[x] for x in names]))
+                            o['sum'] = float(r.function if hasattr(r, 'function') else r.function_output.function)
+                        finally:
+                            rec_of(log, o)
+                else:
+                    with recording() as log:
+                        try:
+                            o['values'] = evaluate(objs[st['node']], st['entry'], st['dict'], False)
+                        finally:
+                            rec_of(log, o)
+        except Exception as ex:  # noqa: BLE001
+            o['error'] = f'{core.exc_kind(ex)}: {ex}'[:300]
+        # the numbering every persisted formula now writes in its signature
+        o['sigs'] = [_sig_text(objs[r]) for r in roots]
+        out.append(o)
+        if engine_raised(o.get('error')):
+            break
+    return out
+
+
+def _seq_small(seq, i=None):
+    c = {k: seq[k] for k in ('nodes', 'roots', 'columns', 'rows', 'mode', 'steps')}
+    c['foreign'] = bool(seq.get('foreign'))
+    if i is not None:
+        c['failing_step'] = i
+    return c
+
+
+def seq_check(ctx, res, seq, obs=None):
+    """oracle: every number returned along the sequence is the mathematical value of the formula evaluated, by name;
+    model: the numbering state (Model/IdState.lean) predicts every signature written and every refusal"""
+    if obs is None:
+        if seq['mode'] == 'biogeme':
+            with core.scratch():
+                obs = seq_real(seq)
+        else:
+            obs = seq_real(seq)
+    roots, rows, cols = seq['roots'], G.rows_of(seq), seq['columns']
+    res.count({'sequence': _seq_small(seq)}, nontrivial=sum(1 for s in seq['steps'] if s['s'] == 'alone') >= 1 and any(
+        n['k'] == 'beta' for n in seq['nodes']))
+    res.tally('seq:' + seq['mode'])
+    mrows = [[f2b(float(r[c])) for c in cols] for r in rows]
+    msteps, mkind = [], []
+
+    def expected(node, d):
+        bv = _valuation(seq, d)
+        outv = []
+        for row in rows:
+            try:
+                outv.append(G.oracle(seq, node, bv, row))
+            except G.Reject:
+                outv.append(None)
+        return outv
+
+    for i, (st, o) in enumerate(zip(seq['steps'], obs)):
+        small = _seq_small(seq, i)
+        s = st['s']
+        if s in ('persist', 'function'):
+            if 'error' in o:
+                res.violate(f'numbering valid formulas fails: {o["error"]}', small, o['error'], 'an id table', where=SEQ_WHERE)
+                if engine_raised(o.get('error')):
+                    raise Poisoned()
+                return obs
+            msteps.append({'s': 'persist', 'roots': roots} if s == 'persist' else {'s': 'function', 'node': st['node']})
+            mkind.append(('table', i))
+        elif s == 'reset':
+            msteps.append({'s': 'reset', 'node': st['node']})
+            mkind.append(('none', i))
+        elif s == 'alone':
+            res.tally('seq:alone')
+            if 'values' not in o:
+                res.violate(f'evaluation of a part of a numbered formula fails: {o.get("error")}', small, o.get('error'), 'numbers', where=SEQ_WHERE)
+                if engine_raised(o.get('error')):
+                    raise Poisoned()
+                return obs
+            for ri, (g, e) in enumerate(zip(o['values'], expected(st['node'], st['dict']))):
+                if e is not None and not core.close(g, e, rel=TOL):
+                    res.violate('a part of a numbered formula, evaluated alone, differs from its mathematical value', {**small, 'row': ri}, g, e, where=SEQ_WHERE)
+                    break
+            if o.get('free') is not None:
+                msteps.append({'s': 'alone', 'node': st['node'], 'ee': {'free': [f2b(v) for v in o['free']], 'fixed': [f2b(v) for v in o['fixed']], 'rows': mrows}})
+            else:
+                msteps.append({'s': 'alone', 'node': st['node']})
+            mkind.append(('eval', i))
+        elif s == 'ctx':
+            res.tally('seq:again')
+            if st.get('expect_refused'):
+                msteps.append({'s': 'ctx', 'node': st['node'], 'ee': {'free': [], 'fixed': [], 'rows': mrows}})
+                mkind.append(('refused', i))
+                continue
+            if seq.get('foreign') and 'error' in o and not engine_raised(o['error']):
+                # a formula built on the same objects was evaluated alone in between: the library may now refuse
+                # ("No id has been defined"); only the model says whether it must
+                res.tally('seq:refused_after_foreign')
+                for node in st.get('nodes', [st.get('node')]):
+                    msteps.append({'s': 'ctx', 'node': node, 'ee': {'free': [], 'fixed': [], 'rows': []}})
+                    mkind.append(('failed', i))
+                for fi, r in enumerate(roots):
+                    msteps.append({'s': 'sig', 'node': r})
+                    mkind.append(('sig', i, fi))
+                continue
+            if seq['mode'] == 'biogeme':
+                if 'sim' not in o:
+                    res.violate(f'simulate after a part was evaluated alone fails: {o.get("error")}', small, o.get('error'), 'numbers', where=SEQ_WHERE)
+                    if engine_raised(o.get('error')):
+                        raise Poisoned()
+                    return obs
+                bad = False
+                for fi, r in enumerate(roots):
+                    for ri, (g, e) in enumerate(zip(o['sim'][fi], expected(r, st['dict']))):
+                        if e is not None and not core.close(g, e, rel=TOL):
+                            res.violate('after a part was evaluated alone, a formula of the BIOGEME object differs from its mathematical value',
+                                        {**small, 'formula': fi, 'row': ri}, g, e, where=SEQ_WHERE)
+                            bad = True
+                            break
+                    if bad:
+                        break
+            elif seq['mode'] == 'function':
+                if 'sum' not in o:
+                    res.violate(f'the function made by create_function fails after a part was evaluated alone: {o.get("error")}', small, o.get('error'), 'a number', where=SEQ_WHERE)
+                    if engine_raised(o.get('error')):
+                        raise Poisoned()
+                    return obs
+                ex = expected(st['node'], st['dict'])
+                if all(e is not None for e in ex):
+                    tot = math.fsum(ex)
+                    if not core.close(o['sum'], tot, rel=TOL, abs_=TOL * math.fsum(abs(e) for e in ex)):
+                        res.violate('the function made by create_function differs from the sum of the mathematical values over the rows', small, o['sum'], tot, where=SEQ_WHERE)
+                msteps.append({'s': 'ctx', 'node': st['node'], 'ee': {'free': [f2b(v) for v in o['free']], 'fixed': [f2b(v) for v in o['fixed']], 'rows': mrows}})
+                mkind.append(('evalsum', i))
+            else:
+                if 'values' not in o:
+                    res.violate(f'evaluation of a numbered formula in its context fails after a part was evaluated alone: {o.get("error")}', small, o.get('error'), 'numbers', where=SEQ_WHERE)
+                    if engine_raised(o.get('error')):
+                        raise Poisoned()
+                    return obs
+                for ri, (g, e) in enumerate(zip(o['values'], expected(st['node'], st['dict']))):
+                    if e is not None and not core.close(g, e, rel=TOL):
+                        res.violate('after a part was evaluated alone, the formula evaluated in its context differs from its mathematical value', {**small, 'row': ri}, g, e, where=SEQ_WHERE)
+                        break
+                msteps.append({'s': 'ctx', 'node': st['node'], 'ee': {'free': [f2b(v) for v in o['free']], 'fixed': [f2b(v) for v in o['fixed']], 'rows': mrows}})
+                mkind.append(('eval', i))
+        # the state after the step, as every persisted formula writes it
+        for fi, r in enumerate(roots):
+            msteps.append({'s': 'sig', 'node': r})
+            mkind.append(('sig', i, fi))
+
+    def canon_text(text):
+        return _canon_sig([_strip(l) for l in G.decode_signature(text)])
+
+    def canon_model(lines):
+        return _canon_sig([_strip(_unjson(l)) for l in lines])
+
+    def cb(ans):
+        ans = ans[0]
+        if not isinstance(ans, list) or len(ans) != len(mkind):
+            res.diverge('numbering model: no answer for the sequence', _seq_small(seq), ans, None, where=SEQ_WHERE)
+            return
+        failing = {}
+        for a, kd in zip(ans, mkind):
+            if kd[0] == 'failed':
+                failing.setdefault(kd[1], []).append('refused' in a or a.get('lines') is None)
+        for i, flags in failing.items():
+            if not any(flags):
+                res.diverge('the library refuses to evaluate a numbered formula, the model of the numbering state evaluates it', _seq_small(seq, i),
+                            'evaluated', obs[i].get('error'), where=SEQ_WHERE)
+        for a, kd in zip(ans, mkind):
+            i = kd[1]
+            o, st, small = obs[i], seq['steps'][i], _seq_small(seq, kd[1])
+            if kd[0] == 'table':
+                if 'table' in a:
+                    if a['table'] != o.get('table'):
+                        res.diverge('id table of the persistent numbering (IdState.persist vs IdManager)', small, a['table'], o.get('table'), where=SEQ_WHERE)
+                elif a.get('pre') not in ('fresh',):
+                    res.diverge('numbering model refuses, library accepts', small, a, o.get('table'), where=SEQ_WHERE)
+            elif kd[0] in ('eval', 'evalsum'):
+                if a.get('lines') is None or 'signature' not in o:
+                    res.diverge('numbering model: no signature for an evaluation the library performs', small, a, o.get('signature', o.get('error')), where=SEQ_WHERE)
+                    continue
+                try:
+                    if canon_model(a['lines']) != canon_text(o['signature']):
+                        res.diverge('signature handed to the engine (IdState vs the library) during the sequence', small,
+                                    str(canon_model(a['lines']))[:400], str(canon_text(o['signature']))[:400], where=SEQ_WHERE)
+                except Exception as e:  # noqa: BLE001
+                    res.diverge(f'signature not decodable: {e}', small, None, o['signature'][:5], where=SEQ_WHERE)
+                vals = a.get('vals')
+                if isinstance(vals, list):
+                    if kd[0] == 'eval':
+                        for ri, (mv, rv) in enumerate(zip(vals, o['values'])):
+                            if 'ok' in mv and not core.close(b2f(mv['ok']), rv, rel=TOL):
+                                res.diverge('value (IdState.runSt vs the library) during the sequence', {**small, 'row': ri}, b2f(mv['ok']), rv, where=SEQ_WHERE)
+                                break
+                    elif all('ok' in mv for mv in vals):
+                        tot = math.fsum(b2f(mv['ok']) for mv in vals)
+                        if not core.close(tot, o['sum'], rel=TOL, abs_=TOL * math.fsum(abs(b2f(mv['ok'])) for mv in vals)):
+                            res.diverge('sum over the rows (IdState.runSt vs the function of create_function)', small, tot, o['sum'], where=SEQ_WHERE)
+            elif kd[0] == 'refused':
+                if ('refused' in a) != ('error' in o):
+                    res.diverge('evaluation out of context (IdState.ctxAt vs the library)', small, a if 'refused' in a else 'accepted', o.get('error', 'accepted'), where=SEQ_WHERE)
+            elif kd[0] == 'sig':
+                real = o['sigs'][kd[2]]
+                if isinstance(real, dict) or a.get('lines') is None:
+                    if isinstance(real, dict) != (a.get('lines') is None):
+                        res.diverge('can the formula write its signature now (IdState.sigSt vs get_signature)', small, 'no ids' if a.get('lines') is None else 'ids', str(real)[:200], where=SEQ_WHERE)
+                    continue
+                try:
+                    cm, cr = canon_model(a['lines']), canon_text(real)
+                except Exception as e:  # noqa: BLE001
+                    res.diverge(f'signature not decodable: {e}', small, None, real[:5], where=SEQ_WHERE)
+                    continue
+                if cm != cr:
+                    res.diverge('numbering left behind by the step (IdState vs get_signature of the numbered formula)', {**small, 'formula': kd[2]},
+                                str(cm)[:400], str(cr)[:400], where=SEQ_WHERE)
+
+    ctx.batch.add_many([{'op': 'idseq', 'dag': G.to_json_nodes(seq), 'cols': list(cols), 'steps': msteps}], cb)
+    return obs
+
+
+# a formula numbered as a whole, its last product evaluated alone, the whole evaluated again (the parameter of the
+# part is the alphabetically last one: its rank alone differs from its rank in the whole)
+SEQ_CORPUS = [
+    {'nodes': [{'k': 'beta', 'name': 'a', 'v': 2.0, 'fixed': False}, {'k': 'var', 'name': 'x1'},
+               {'k': 'beta', 'name': 'z', 'v': 0.5, 'fixed': False}, {'k': 'var', 'name': 'x2'},
+               {'k': 'beta', 'name': 'k', 'v': 4.0, 'fixed': True}, {'k': 'beta', 'name': 'q', 'v': 0.25, 'fixed': True},
+               {'k': 'times', 'c': [0, 1]}, {'k': 'times', 'c': [2, 3]}, {'k': 'plus', 'c': [7, 5]},
+               {'k': 'plus', 'c': [6, 8]}, {'k': 'times', 'c': [8, 8]}, {'k': 'times', 'c': [4, 1]}, {'k': 'plus', 'c': [11, 10]}],
+     'roots': [9, 12], 'columns': ['x2', 'x1'], 'rows': [[1.0, 0.5], [2.0, 1.5], [4.0, -1.0]], 'dict': {}, 'mode': mode,
+     'steps': steps}
+    for mode, steps in (
+        ('idm', [{'s': 'persist', 'roots': [9, 12]}, {'s': 'ctx', 'node': 9, 'dict': {'a': 3.0}, 'entry': 'value_c'},
+                 {'s': 'alone', 'node': 8, 'dict': {'z': -1.0}, 'entry': 'value_c'},
+                 {'s': 'ctx', 'node': 9, 'dict': {'a': 3.0, 'z': 1.5}, 'entry': 'value_c'},
+                 {'s': 'ctx', 'node': 12, 'dict': {}, 'entry': 'derivatives'},
+                 {'s': 'alone', 'node': 2, 'dict': {}, 'entry': 'derivatives'},
+                 {'s': 'ctx', 'node': 12, 'dict': {'z': 0.75}, 'entry': 'value_c'}]),
+        ('biogeme', [{'s': 'persist', 'roots': [9, 12]}, {'s': 'alone', 'node': 7, 'dict': {}, 'entry': 'value_c'},
+                     {'s': 'ctx', 'nodes': [9, 12], 'dict': {'a': 1.0, 'z': -0.5}}]),
+    )
+] + [
+    {'nodes': [{'k': 'beta', 'name': 'a', 'v': 2.0, 'fixed': False}, {'k': 'var', 'name': 'x1'},
+               {'k': 'beta', 'name': 'z', 'v': 0.5, 'fixed': False}, {'k': 'var', 'name': 'x2'},
+               {'k': 'times', 'c': [0, 1]}, {'k': 'times', 'c': [2, 3]}, {'k': 'plus', 'c': [4, 5]}],
+     'roots': [6], 'columns': ['x2', 'x1'], 'rows': [[1.0, 0.5], [2.0, 1.5]], 'dict': {}, 'mode': 'function',
+     'steps': [{'s': 'function', 'node': 6}, {'s': 'ctx', 'node': 6, 'dict': {'a': 2.0, 'z': 3.0}},
+               {'s': 'alone', 'node': 5, 'dict': {}, 'entry': 'value_c'}, {'s': 'ctx', 'node': 6, 'dict': {'a': 2.0, 'z': 3.0}}]},
+]
+
+
+def seq_stream(ctx, res, rng, n):
+    for seq in SEQ_CORPUS:
+        seq_check(ctx, res, seq)
+        res.tally('corpus')
+    for _ in range(n):
+        seq_check(ctx, res, gen_seq(rng))
+        if len(res.violations) > 20:
+            break
+
+
 # ----- known engine findings (outside /repo) ---------------------------------------------------------
 
 def shared_condition(case):
@@ -431,6 +1127,9 @@ def sharing_check(ctx, res, case):
     small = {'nodes': case['nodes'], 'root': case['roots'][0], 'columns': case['columns'], 'rows': case['rows'], 'dict': case.get('dict', {})}
     res.tally('sharing_pairs')
     va, vb = a.get('values'), b.get('values')
+    if engine_raised(a.get('error')) or engine_raised(b.get('error')):
+        res.violate(f'engine evaluation of a valid formula fails: {a.get("error") or b.get("error")}', small, a.get('error') or b.get('error'), 'a number', where=known_where(case))
+        raise Poisoned()
     if va is None or vb is None or any(not core.close(x, y, rel=TOL) for x, y in zip(va, vb)):
         res.violate('sharing a sub-formula between parents changes the engine value', small, va, vb, where=known_where(case))
     if ('py' in a) != ('py' in b) or ('py' in a and not core.close(a['py'], b['py'], rel=TOL)):
@@ -490,6 +1189,17 @@ def simulate_check(ctx, res, rng):
 def check(ctx) -> Result:
     res = Result(rule=RULE, tolerance=f'relative {TOL}')
     rng = ctx.rng
+    try:
+        in_process_streams(ctx, res, rng)
+    except Poisoned:
+        res.notes.append('an exception was raised inside the C++ engine on a valid formula (reported as a violation); '
+                         'the in-process streams stopped there because the engine keeps the exception for ever')
+    special_stream(ctx, res, rng, ctx.n(36, 360))
+    ctx.batch.flush()
+    return res
+
+
+def in_process_streams(ctx, res, rng):
     for c in CORPUS:
         check_case(ctx, res, c, 'corpus')
         res.tally('corpus')
@@ -500,43 +1210,69 @@ def check(ctx) -> Result:
         sharing_check(ctx, res, case)
     for _ in range(ctx.n(400, 6000)):
         case = G.gen_case(rng)
+        if rng.random() < 0.5:
+            case = widen(rng, case)
         check_case(ctx, res, case)
         if rng.random() < 0.3:
             sharing_check(ctx, res, case)
         if len(res.violations) > 20:
             break
+    focus_stream(ctx, res, rng, ctx.n(12, 120))
+    py_stream(ctx, res, rng, ctx.n(150, 2000))
+    seq_stream(ctx, res, rng, ctx.n(60, 800))
     for _ in range(ctx.n(6, 80)):
         simulate_check(ctx, res, rng)
-    special_stream(ctx, res, rng, ctx.n(36, 360))
-    ctx.batch.flush()
-    return res
 
 
 def search(ctx, res, broken):
     """an obligation or the correspondence broke: apply the oracle to the real code on a wider stream"""
     rng = core.rng_for('C01-search', ctx.seed)
     r2 = Result()
+    try:
+        _search_streams(ctx, r2, rng)
+    except Poisoned:
+        pass
+    ctx.batch.items.clear()
+    res.violations.extend(r2.violations[:3])
+
+
+def _search_streams(ctx, r2, rng):
     for kind in G.BIN + G.UN + G.NARY:
         for _ in range(4):
-            case = G.gen_case(rng, n_ops=rng.randint(1, 5), force_kind=kind)
+            case = widen(rng, G.gen_case(rng, n_ops=rng.randint(1, 5), force_kind=kind))
             check_case(ctx, r2, case)
             sharing_check(ctx, r2, case)
     for _ in range(300):
-        check_case(ctx, r2, G.gen_case(rng))
+        check_case(ctx, r2, widen(rng, G.gen_case(rng)))
         if r2.violations:
             break
-    ctx.batch.items.clear()
-    res.violations.extend(r2.violations[:3])
+    if not r2.violations:
+        focus_stream(ctx, r2, rng, 40)
+    if not r2.violations:
+        py_stream(ctx, r2, rng, 300)
+    if not r2.violations:
+        seq_stream(ctx, r2, rng, 200)
 
 
 def replay(ctx, obj):
     case = obj.get('case') or {}
     if 'nodes' not in case:
         return {'property_fails': False, 'note': 'no concrete input in this replay file'}
+    if 'steps' in case:
+        r = Result()
+        try:
+            seq_check(ctx, r, {k: case.get(k) for k in ('nodes', 'roots', 'columns', 'rows', 'mode', 'steps', 'foreign')})
+        except Poisoned:
+            pass
+        ctx.batch.items.clear()
+        return {'property_fails': bool(r.violations), 'violations': r.violations[:3]}
     c = {'nodes': case['nodes'], 'roots': [case['root']] if 'root' in case else case['roots'], 'columns': case['columns'],
          'rows': case['rows'], 'dict': case.get('dict', {})}
     r = Result()
-    check_case(ctx, r, c)
-    sharing_check(ctx, r, c)
+    try:
+        check_case(ctx, r, c)
+        sharing_check(ctx, r, c)
+    except Poisoned:
+        pass
     ctx.batch.items.clear()
     return {'property_fails': bool(r.violations), 'violations': r.violations[:3]}
